@@ -14,6 +14,7 @@ indexed to (numbers through float(text) as exact rationals), cells without a cac
 are empty; also after replace_data histories and after save / re-open of the package."""
 import datetime
 import io
+import json
 import re
 import shutil
 import tempfile
@@ -133,6 +134,20 @@ def data_tokens(data):
     return out
 
 
+def series_formats(data):
+    """a number format per series (None = inherit): presentation only, no cell or cached VALUE depends on it, so the
+    model does not see it; derived from the data itself so that the main random stream is left as it was.  Two in five
+    data sets get formats, chosen from few so that equal formats recur at non-adjacent series."""
+    import hashlib
+    import random as _r
+
+    n = len(data["series"])
+    g = _r.Random(int(hashlib.sha1(json.dumps([data["kind"], [s[0] for s in data["series"]]], sort_keys=True, default=str).encode()).hexdigest()[:12], 16))
+    if n < 2 or g.random() >= 0.4:
+        return [None] * n
+    return [g.choice([None, "0.0", "#,##0", "0.00%"]) for _ in range(n)]
+
+
 def build(data):
     from pptx.chart.data import BubbleChartData, CategoryChartData, XyChartData
 
@@ -146,19 +161,19 @@ def build(data):
 
         for n in data["cats"]:
             add(None, n, True)
-        for name, vals in data["series"]:
-            cd.add_series(name, list(vals))
+        for (name, vals), f in zip(data["series"], series_formats(data)):
+            cd.add_series(name, list(vals), number_format=f)
         return cd
     if data["kind"] == "xy":
         cd = XyChartData()
-        for name, pts in data["series"]:
-            s = cd.add_series(name)
+        for (name, pts), f in zip(data["series"], series_formats(data)):
+            s = cd.add_series(name, number_format=f)
             for x, y, _z in pts:
                 s.add_data_point(x, y)
         return cd
     cd = BubbleChartData()
-    for name, pts in data["series"]:
-        s = cd.add_series(name)
+    for (name, pts), f in zip(data["series"], series_formats(data)):
+        s = cd.add_series(name, number_format=f)
         for x, y, z in pts:
             s.add_data_point(x, y, z)
     return cd
